@@ -2788,12 +2788,20 @@ func hijackConnHandler(ctx *RequestCtx, r io.Reader, c net.Conn, s *Server, h Hi
 
 	// When the caller keeps using the hijacked connection after return,
 	// the buffered reader must remain owned by that escaped connection.
-	if br, ok := r.(*bufio.Reader); ok && !s.KeepHijackedConns {
+	br, buffered := r.(*bufio.Reader)
+	if buffered && !s.KeepHijackedConns {
 		releaseReader(s, br)
 	}
 	if !s.KeepHijackedConns {
 		c.Close()
 		s.releaseHijackConn(hjc)
+	}
+	if s.KeepHijackedConns && buffered && s.ReduceMemoryUsage {
+		// With ReduceMemoryUsage the buffered reader reads through ctx.fbr.
+		// Resetting and pooling ctx would cut the escaped connection off from
+		// its socket (and later point it at another client's connection), so
+		// ctx stays with the connection and is left to the garbage collector.
+		return
 	}
 	s.releaseCtx(ctx)
 }
